@@ -1,6 +1,7 @@
 package namer
 
 import (
+	"go/token"
 	"slices"
 	"strconv"
 	"strings"
@@ -43,19 +44,50 @@ func (tracker *defaultImportTracker) add(path string) {
 
 	parts := strings.Split(path, "/")
 
-	for i := range len(parts) {
-		localName := golangTrackerLocalName(parts, i+1)
+	available := func(localName string) bool {
+		// must be usable as package name in import decl
+		if !token.IsIdentifier(localName) || localName == "_" {
+			return false
+		}
 
 		if tracker.checkStd {
 			if p, ok := std.nameToPath[localName]; ok && p != path {
-				continue
+				return false
 			}
 		}
 
-		if _, ok := tracker.nameToPath[localName]; !ok {
+		_, used := tracker.nameToPath[localName]
+		return !used
+	}
+
+	base := ""
+
+	for i := range len(parts) {
+		localName := golangTrackerLocalName(parts, i+1)
+
+		if available(localName) {
 			tracker.nameToPath[localName] = path
 			tracker.pathToName[path] = localName
-			break
+			return
+		}
+
+		if base == "" && token.IsIdentifier(localName) {
+			base = localName
+		}
+	}
+
+	// all candidates are used or invalid, fallback to numbered name
+	if base == "" {
+		base = "pkg"
+	}
+
+	for n := 2; ; n++ {
+		localName := base + strconv.Itoa(n)
+
+		if available(localName) {
+			tracker.nameToPath[localName] = path
+			tracker.pathToName[path] = localName
+			return
 		}
 	}
 }
